@@ -76,6 +76,8 @@ pub fn step_oracle(r: &Run, rec: &StepRec) {
         "C12" => c12(r, rec),
         "C04" => c04(r, rec),
         "C05" => c05(r, rec),
+        "C06" => c06(r, rec),
+        "C07" => c07(r, rec),
         _ => {}
     }
 }
@@ -154,15 +156,27 @@ fn c04(r: &Run, rec: &StepRec) {
         };
         let f = spec::funding_owed(p, &rec.pre.cum[r.vi], d);
         let eq = spec::equity(p, spec::pnl(p, q), f);
+        // with a zero fluctuation limit ClosePosition always closes the whole position; under a
+        // limit it may close a fraction, which realises only that fraction of the PnL
+        let always_whole = r.w.vamm_config(r.vi).fluctuation_limit_ratio.is_zero();
         if rec.tx.ok {
-            prove_d("C04/close-succeeds-only-without-bad-debt", spec::ge0(eq), what.clone());
             let whole = rec.post.pos[&(r.vi, *who)].is_none();
+            if whole {
+                prove_d("C04/close-succeeds-only-without-bad-debt", spec::ge0(eq), what.clone());
+            }
             if whole && r.w.token.is_some() {
                 let fees = match &rec.obs.fee {
                     Some(f) => s(f.toll_fee).add(s(f.spread_fee)),
                     None => c(0),
                 };
                 prove_d("C04/whole-close-pays-margin+pnl-funding(minus-fees)", delta(rec, who).eq(eq.sub(fees)), what.clone());
+                // funding owed measured from the harness's own ledger of when the position was last
+                // charged (a stale checkpoint must not make a settlement count twice or not at all)
+                if let Some(at) = r.charged_at.get(*who) {
+                    let f2 = si(&rec.pre.cum[r.vi]).sub(si(at)).mul(si(&p.size)).div_t(c(d));
+                    let eq2 = spec::equity(p, spec::pnl(p, q), f2);
+                    prove_d("C04/whole-close-charges-only-funding-accrued-since-last-charge", delta(rec, who).eq(eq2.sub(fees)), what.clone());
+                }
             }
             if whole {
                 // exchanged amount == the quote taken before (C17 at engine level)
@@ -178,8 +192,17 @@ fn c04(r: &Run, rec: &StepRec) {
         } else {
             let _ = ();
         }
-        // equity < 0  =>  the close (whole or partial) fails
-        prove_d("C04/close-with-negative-equity-rejected", eq.lt(c(0)).implies(Cond::from_bool(!rec.tx.ok)), what.clone());
+        // equity < 0  =>  the whole close fails
+        if always_whole {
+            prove_d("C04/close-with-negative-equity-rejected", eq.lt(c(0)).implies(Cond::from_bool(!rec.tx.ok)), what.clone());
+        } else if rec.tx.ok {
+            if let Some(p1) = &rec.post.pos[&(r.vi, *who)] {
+                // partial close: realised fraction of the PnL and the funding were covered by the margin
+                let closed = s(p.size.value).sub(s(p1.size.value));
+                let realised = spec::pnl(p, q).mul(closed).div_t(s(p.size.value));
+                prove_d("C04/partial-close-succeeds-only-if-margin-covers-realised-loss-and-funding", s(p.margin).add(realised).sub(f).ge(SInt::i(-2)), what.clone());
+            }
+        }
     }
 }
 
@@ -262,4 +285,108 @@ fn c05(r: &Run, rec: &StepRec) {
         }
         _ => {}
     }
+}
+
+// ------------------------------------------------------------------------------------------
+// C06 / C07: liquidation safety (only under-margined, exact payouts) and liveness
+// ------------------------------------------------------------------------------------------
+fn liq_ratio(r: &Run, rec: &StepRec) -> Option<SInt> {
+    use crate::spec;
+    let (p, os, ot, sp) = match (&rec.obs.pos, rec.obs.out_spot, rec.obs.out_twap, rec.obs.spot_price) {
+        (Some(p), Some(os), Some(ot), Some(sp)) => (p, os, ot, sp),
+        _ => return None,
+    };
+    let i = spec::RatioIn { p, out_spot: os, out_twap: ot, cum: &rec.pre.cum[r.vi], spot_price: sp, oracle: rec.obs.oracle, d: r.w.d };
+    Some(spec::ratio_for_liquidation(&i))
+}
+
+fn c06(r: &Run, rec: &StepRec) {
+    use crate::spec;
+    let d = r.w.d;
+    let (by, trader) = match &rec.op {
+        Op::Liquidate { by, trader, .. } => (*by, *trader),
+        _ => return,
+    };
+    if !rec.tx.ok {
+        return;
+    }
+    let what = &rec.what;
+    let cfg = r.w.engine_config();
+    let p0 = match &rec.obs.pos {
+        Some(p) => p,
+        None => {
+            prove_d("C06/liquidation-needs-a-position", Cond::False, what.clone());
+            return;
+        }
+    };
+    match liq_ratio(r, rec) {
+        Some(ratio) => {
+            prove_d("C06/liquidated-only-if-margin-ratio<=maintenance", ratio.le(s(cfg.maintenance_margin_ratio)), what.clone());
+        }
+        None => {
+            prove_d("C06/ratio-observable-before-liquidation", Cond::False, what.clone());
+        }
+    }
+    // quote actually exchanged with the vAMM
+    let q = s(rec.pre.vamm[r.vi].quote_asset_reserve).sub(s(rec.post.vamm[r.vi].quote_asset_reserve)).abs();
+    let pen = q.mul(s(cfg.liquidation_fee)).div_e(c(d));
+    let liq_gain = delta(rec, by);
+    let ins_net = delta(rec, "insurance_fund").add(s(rec.post.eng.bad_debt).sub(s(rec.pre.eng.bad_debt)));
+    prove_d("C06/liquidated-trader-receives-nothing", delta(rec, trader).eq(c(0)), what.clone());
+    match &rec.post.pos[&(r.vi, trader)] {
+        None => {
+            let kind = format!("{} full", what);
+            // exactly half of (quote exchanged x fee ratio), either rounding of the half
+            prove_d("C06/full-liquidation-pays-liquidator-half-the-penalty", liq_gain.mul(c(2)).sub(pen).abs().le(c(1)), kind.clone());
+            // remaining margin goes to the insurance fund
+            let f = spec::funding_owed(p0, &rec.pre.cum[r.vi], d);
+            // realised with the quote actually exchanged
+            let pnl = if spec::is_long(p0) { q.sub(s(p0.notional)) } else { s(p0.notional).sub(q) };
+            let eq = spec::equity(p0, pnl, f);
+            let remaining = eq.sub(liq_gain);
+            prove_d("C06/full-liquidation-sends-remaining-margin-to-insurance-fund", remaining.ge(c(0)).implies(ins_net.eq(remaining)), kind);
+        }
+        Some(p1) => {
+            let kind = format!("{} partial", what);
+            let want = s(p0.size.value).mul(s(cfg.partial_liquidation_ratio)).div_e(c(d));
+            prove_d("C06/partial-liquidation-reduces-size-by-exactly-the-fraction", s(p0.size.value).sub(s(p1.size.value)).eq(want), kind.clone());
+            prove_d(
+                "C06/partial-liquidation-never-flips-or-grows",
+                Cond::from_bool(p1.size.negative == p0.size.negative && p1.direction == p0.direction).and(s(p1.size.value).lt(s(p0.size.value))),
+                kind.clone(),
+            );
+            prove_d("C06/partial-liquidation-pays-liquidator-half-the-penalty", liq_gain.mul(c(2)).sub(pen).abs().le(c(1)), kind.clone());
+            prove_d("C06/partial-liquidation-pays-insurance-fund-half-the-penalty", ins_net.mul(c(2)).sub(pen).abs().le(c(1)), kind);
+        }
+    }
+    let _ = si;
+}
+
+fn c07(r: &Run, rec: &StepRec) {
+    let (_by, _trader) = match &rec.op {
+        Op::Liquidate { by, trader, .. } => (*by, *trader),
+        _ => return,
+    };
+    if rec.tx.ok {
+        return;
+    }
+    let cfg = r.w.engine_config();
+    let ratio = match liq_ratio(r, rec) {
+        Some(x) => x,
+        None => return, // the closing trade cannot be quoted: outside the property's precondition
+    };
+    // open, registered, quotable, inside the band (no fluctuation limit in these deployments),
+    // non-zero fee, insurance fund funded: a failure is only acceptable if the position is not
+    // under-margined (for every value on this path)
+    let st = &rec.pre.vamm[r.vi];
+    if !st.open || !r.w.is_vamm(r.vi) {
+        return;
+    }
+    let pre = ratio.lt(s(cfg.maintenance_margin_ratio)).and(s(cfg.liquidation_fee).ne(c(0)));
+    let kind = if !cfg.partial_liquidation_ratio.is_zero() { "partial-ratio>0" } else { "partial-ratio=0" };
+    prove_d(
+        "C07/under-margined-position-can-be-liquidated",
+        pre.not(),
+        format!("liquidate failed [{}] {}", kind, crate::sx::norm(&rec.tx.err)),
+    );
 }
